@@ -89,6 +89,16 @@ def processLoop {S : Type} (P : Params S) : Nat → Ctx S → Bytes → Ctx S
 def process {S : Type} (P : Params S) (c : Ctx S) (data : Bytes) : Ctx S :=
   processLoop P data.length c data
 
+/-- `X::process(tlx::string_view str)`: `process(data, 2^30)` while more than `2^30` bytes remain,
+    then `process(data, size)` — the pieces handed to `process(const void*, uint32)` -/
+def svPieces (data : Bytes) : List Bytes :=
+  if 2 ^ 30 < data.length then data.take (2 ^ 30) :: svPieces (data.drop (2 ^ 30)) else [data]
+termination_by data.length
+decreasing_by simp [List.length_drop]; omega
+
+def processSV {S : Type} (P : Params S) (c : Ctx S) (data : Bytes) : Ctx S :=
+  (svPieces data).foldl (process P) c
+
 /-- `X::finalize(digest)`: the bytes written to `digest` and the object afterwards -/
 def finalize {S : Type} (P : Params S) (c : Ctx S) : Bytes × Ctx S :=
   let length := c.length + BitVec.ofNat 64 (c.curlen * 8)
